@@ -14,6 +14,9 @@
 enum { K_NONE, K_MONTH, K_HOUR, K_MINUTE, K_SECOND, K_OTHER, K_N };
 static uint64_t g_vals[K_N];
 static unsigned g_dups, g_cur;
+static unsigned g_ms_lines, g_um_lines;
+static int g_ms_val;
+static unsigned g_um_val;
 static int fdbang(int fd) { (void)fd; return 0; }
 static ssize_t fdflush(void) { return 0; }
 static int fdputc(int c) { (void)c; return 0; }
@@ -22,6 +25,19 @@ static int fdprintf(const char *fmt, ...)
 {
 	va_list ap;
 	va_start(ap, fmt);
+	if (fmt[0] == 'X' && fmt[1] == '-' && fmt[7] == 'M' && fmt[8] == 'A' && fmt[9] == 'X') {
+		/* X-ECHS-MAX-SIMUL:%d */
+		g_ms_lines++;
+		g_ms_val = va_arg(ap, int);
+		va_end(ap);
+		return 1;
+	} else if (fmt[0] == 'X' && fmt[1] == '-' && fmt[7] == 'U' && fmt[8] == 'M') {
+		/* X-ECHS-UMASK:0%o */
+		g_um_lines++;
+		g_um_val = va_arg(ap, unsigned);
+		va_end(ap);
+		return 1;
+	}
 	if (fmt[0] == ';' && fmt[1] == 'B' && fmt[2] == 'Y') {
 		/* a new list starts */
 		g_cur = fmt[3] == 'H' ? K_HOUR : (fmt[3] == 'M' && fmt[4] == 'I') ? K_MINUTE :
@@ -67,4 +83,33 @@ void h_C05_send_rrul_sets(void)
 	if (VU63(mi) >> 31) { SENTINEL("send_rrul minute above 30"); }
 	if (hr == 1U) { SENTINEL("send_rrul lone hour 0"); }
 	SENTINEL("send_rrul");
+}
+
+#if !defined REPLAY
+const char *obint_name(obint_t x) { (void)x; return "uid"; }
+#endif
+/* the numeric task fields with an 'unset' encoding: what is written is the
+ * value the task holds, and nothing is written for 'unset' */
+void h_C05_send_task_limits(void)
+{
+	IN_RANGE(unsigned, ms, 0, 63);	/* 63 = unset */
+	IN_RANGE(unsigned, um, 0, 1023);	/* >= 0777 + 1 ... = unset */
+	static struct echs_task_s t;
+	memset(&t, 0, sizeof(t));
+	t.max_simul = ms;
+	t.umsk = um;
+	send_task(5, &t);
+	if (ms < 63U) {
+		ASSERT(g_ms_lines == 1U && g_ms_val == (int)ms, "send_task: a task limited to N simultaneous runs is written with X-ECHS-MAX-SIMUL:N");
+		SENTINEL("send_task limited");
+	} else {
+		ASSERT(g_ms_lines == 0U, "send_task: an unlimited task is written without X-ECHS-MAX-SIMUL");
+		SENTINEL("send_task unlimited");
+	}
+	if (um <= 0777U) {
+		ASSERT(g_um_lines == 1U && g_um_val == um, "send_task: the umask is written as it is held");
+	} else {
+		ASSERT(g_um_lines == 0U, "send_task: an unset umask is not written");
+	}
+	SENTINEL("send_task limits");
 }
